@@ -2,7 +2,7 @@
 import random
 from vf import Case
 from gen import constants
-from props.regcommon import TYPES, SIZE, BITS, checks, values, hexv, default_for
+from props.regcommon import TYPES, SIZE, BITS, BOUNDS, pat, checks, values, hexv, default_for
 
 ID = "C01"
 DRIVER = "drv_regtable"
@@ -12,7 +12,8 @@ THOROUGH_SEEDS = 4
 GEN = [constants.gen]
 TIE = ['Ufw.Tie.RegTable']
 RULE = ("table family: one target register of each of the 8 types x 8 constraint kinds (none, always-fail, min, max, range, three callbacks) "
-        "x {little, big endian} x {memory-backed, callback-backed, no-write-callback} area, with a 16-bit neighbour register on either side; "
+        "x {little, big endian} x {memory-backed, callback-backed, no-write-callback} area, with a 16-bit neighbour register on either side; degenerate "
+        "bounds per type (inverted, one-point and full ranges, minimum at the top / maximum at the bottom of the type) in areas that skip defaults; "
         "values: type extremes, constraint bounds -1/0/+1, every single bit, all float classes (+-0, subnormals, smallest/largest normal, "
         "infinities, quiet/signalling NaNs with payloads), random (thorough: all 2^16 values of the 16-bit types); through checked set, unchecked "
         "set, get, with mismatched value types; handles 0..entries+2 and UINT32_MAX.  After every call the complete storage of all areas is "
@@ -87,6 +88,27 @@ def cases(tier, seed):
                         chunk = ops[:2] + ops[2 + i:2 + i + 400] if i else ops[:402]
                         cs.append(Case("t%d" % n, chunk, ("typed", ty, cname)))
                         n += 1
+        # "all constraint kinds and bounds": degenerate bounds - a range whose minimum lies above its maximum (no value
+        # satisfies it), a one-point range, the full range of the type, a minimum at the top and a maximum at the bottom of
+        # the type.  The area skips defaults (a default that no bound admits would make initialisation fail).
+        lo, hi = BOUNDS[ty]
+        plo, phi = hexv(ty, pat(ty, lo)), hexv(ty, pat(ty, hi))
+        if ty[0] == "f":
+            tmin, tmax = (hexv(ty, 0xff7fffff), hexv(ty, 0x7f7fffff)) if ty == "f32" else (hexv(ty, 0xffefffffffffffff), hexv(ty, 0x7fefffffffffffff))
+        elif ty[0] == "u":
+            tmin, tmax = hexv(ty, 0), hexv(ty, (1 << BITS[ty]) - 1)
+        else:
+            tmin, tmax = hexv(ty, 1 << (BITS[ty] - 1)), hexv(ty, (1 << (BITS[ty] - 1)) - 1)
+        for bname, chk in (("inverted", "r%s-%s" % (phi, plo)), ("point", "r%s-%s" % (plo, plo)), ("full", "r%s-%s" % (tmin, tmax)),
+                           ("inverted-full", "r%s-%s" % (tmax, tmin)), ("min-top", "m" + tmax), ("max-bottom", "x" + tmin)):
+            for akind in ("16:12:rws:M", "16:12:rws:CRW"):
+                ents = "u16:16:1111:t|%s:18:%s:%s|u16:%d:2222:t" % (ty, hexv(ty, 0), chk, 18 + SIZE[ty])
+                ops = ["rt.table %d %s %s" % (rnd.randint(0, 1), akind, ents), "rt.init", "rt.get 1"]
+                for v in values(ty, rnd, 4 if tier == "quick" else 40):
+                    ops.append("rt.%s 1 %s %s" % (rnd.choice(["set", "set", "set", "setu"]), ty, hexv(ty, v)))
+                    ops.append("rt.get 1")
+                cs.append(Case("b%d" % n, ops, ("typed", ty, "bounds-" + bname)))
+                n += 1
         # state left behind by OTHER operations must not change what a set does: sanitise runs that are cut short
         # (a register of a second area cannot be written back), refused block writes, failing iteration callbacks
         for cname in ("fail", "range", "trivial"):
